@@ -324,7 +324,8 @@ def run(ctx):
         if want is not None and r.distinct != want:
             raise CheckError("MODEL-BROKEN: XmlMC %s explored %d (tree, program) states, expected %d" % (cfg, r.distinct, want))
     if thorough:
-        mc("MC_thorough.cfg", None, 3000, "12g")
+        mc("MC.cfg", 137181, 3000, "12g")
+        mc("MC_thorough.cfg", 173712, 3000, "12g")
         mc("MC_deco_thorough.cfg", 754389, 3000, "12g")
     else:
         mc("MC.cfg", 137181)
